@@ -29,7 +29,13 @@ RULE = (
     "relocated_mesh_grid_from (first grid, a second shifted+stretched grid with equally many points and vertices, back "
     "on the first grid, and a mesh with exactly as many vertices as the data grid has points) and by two "
     "mapper_grids_from calls sharing one relocator is snapshotted and compared (exact) after every later call, and "
-    "the first results are re-checked against their own oracle at the end. subborder: sub_border_slim / "
+    "the first results are re-checked against their own oracle at the end. rewrap: one flattened boolean pattern "
+    "(12..36 cells; all unmasked, Bernoulli, one run) re-wrapped to 2-4 shapes H x W = cells drawn with repetition "
+    "(4x6 then 6x4 / 3x8 / 2x12 ..., the same shape again), with the same or per-step sub-size maps, pixel scales and "
+    "origins; one Mask2D + BorderRelocator per step is built in sequence in the same process and each is checked "
+    "against its own reference (border pixels, sub_border_slim via attribute and via function, sub_grid, "
+    "sub_border_grid, one relocation); non-trivial there = two steps of different shape whose reference sub-border "
+    "index lists differ. subborder: sub_border_slim / "
     "sub_border_grid on masks up to 10x10. Oracles: (1) the statement's rule re-implemented in plain numpy "
     "(centroid = mean of the border points = source grid at the sub-border indices, radii, nearest border point by "
     "squared distance, factor r_border/r_point applied iff < 1 and r_point > r_min) at atol 1e-10*scale "
@@ -795,6 +801,128 @@ def body_subborder(case, ctx):
               what="sub_border_grid vs closed-form centres of the selected sub-pixels")
 
 
+# ---------------------------------------------------------------------------------------------
+# sub-check: several masks in one process (one flattened pattern re-wrapped to different shapes)
+# ---------------------------------------------------------------------------------------------
+def _factor_pairs(n):
+    return [[h, n // h] for h in range(1, n + 1) if n % h == 0]
+
+
+@st.composite
+def rewrap_case(draw):
+    total = draw(st.sampled_from([12, 12, 16, 18, 20, 24, 24, 30, 36]))
+    pk = draw(st.sampled_from(["all-unmasked", "all-unmasked", "bernoulli", "bernoulli", "bernoulli", "run"]))
+    if pk == "all-unmasked":
+        pattern = [False] * total
+    elif pk == "bernoulli":
+        p = draw(st.sampled_from([5, 7, 9]))
+        pattern = [not (b < p) for b in draw(st.lists(st.integers(0, 9), min_size=total, max_size=total))]
+    else:
+        a = draw(st.integers(0, total - 1)); b = draw(st.integers(a, total - 1))
+        pattern = [not (a <= i <= b) for i in range(total)]
+    if all(pattern):
+        pattern[draw(st.integers(0, total - 1))] = False
+    n = sum(1 for v in pattern if not v)
+    pairs = _factor_pairs(total)
+    nsteps = draw(st.integers(2, 4))
+    sub_mode = draw(st.sampled_from(["same", "same", "same", "per-step"]))
+    per_pixel = draw(st.sampled_from([False, False, True]))
+
+    def draw_sub():
+        if per_pixel:
+            return draw(st.lists(st.integers(1, 3), min_size=n, max_size=n))
+        return draw(st.integers(1, 3))
+
+    sub0 = draw_sub()
+    geo_mode = draw(st.sampled_from(["same", "same", "per-step"]))
+    ps0, or0 = draw(gens.pixel_scales()), draw(gens.origins(mag=20.0))
+    order = draw(st.permutations(pairs))
+    shapes = [order[k % len(order)] for k in range(nsteps)]        # distinct shapes first ...
+    if nsteps >= 3 and draw(st.integers(0, 2)) == 0:
+        shapes[-1] = shapes[0]                                     # ... sometimes back to the first (A, B, A)
+    if draw(st.integers(0, 5)) == 0:
+        shapes[1] = shapes[0]                                      # ... or the same shape twice (other geometry / sub-size)
+    steps = []
+    for k in range(nsteps):
+        shape = list(shapes[k])
+        sub = sub0 if sub_mode == "same" else draw_sub()
+        step = {
+            "shape": shape, "sub": sub,
+            "sub_form": draw(st.sampled_from(["array2d", "ndarray"] if isinstance(sub, list) else ["int", "array2d", "ndarray"])),
+            "pixel_scales": ps0 if geo_mode == "same" else draw(gens.pixel_scales()),
+            "origin": or0 if geo_mode == "same" else draw(gens.origins(mag=20.0)),
+            "push": [[draw(st.integers(0, 10 ** 6)), draw(st.floats(1.5, 4.0))] for _ in range(draw(st.integers(1, 4)))],
+            "stretch": [draw(st.floats(0.5, 2.0)), draw(st.floats(0.5, 2.0))],
+        }
+        steps.append(step)
+    return {"pattern": pattern, "pattern_kind": pk, "steps": steps}
+
+
+def body_rewrap(case, ctx):
+    """2-4 masks / relocators built one after the other in one process from one flattened pattern: anything kept
+    per process (sub-border indices, border pixels, sub grids) must be keyed on everything it depends on."""
+    import autoarray as aa
+    from autoarray.inversion.pixelization import border_relocator as brmod
+    pattern = np.asarray(case["pattern"], dtype=bool)
+    n = int((~pattern).sum())
+    ctx.label("pattern:%s" % case["pattern_kind"], "steps:%d" % len(case["steps"]))
+    seen = []        # (shape, reference border pixels) of earlier steps
+    visible = False
+    for k, st_ in enumerate(case["steps"]):
+        h, w = st_["shape"]
+        m = pattern.reshape(h, w).copy()
+        ps, origin = st_["pixel_scales"], st_["origin"]
+        subs = sub_list_for(st_["sub"], n)
+        mask = aa.Mask2D(mask=m.copy(), pixel_scales=tuple(ps), origin=tuple(origin))
+        form = st_["sub_form"]
+        if form == "int":
+            sub_arg = int(st_["sub"])
+        elif form == "array2d":
+            sub_arg = aa.Array2D(values=np.asarray(subs, dtype=int), mask=mask)
+        else:
+            sub_arg = np.asarray(subs, dtype=int)
+        geom = ref_sub_geometry(m, subs, ps, origin)
+        border = ref_border_pixels(m)
+        pix, offs = geom[1], geom[3]
+        ca = [(pix[:, 0].max() + pix[:, 0].min()) / 2.0, (pix[:, 1].max() + pix[:, 1].min()) / 2.0]
+        # one reference choice of sub-border indices (first maximiser), used only to classify the case
+        ref_idx = [int(offs[b] + np.argmax((pix[offs[b]:offs[b + 1], 0] - ca[0]) ** 2 + (pix[offs[b]:offs[b + 1], 1] - ca[1]) ** 2))
+                   for b in border]
+        for (shape0, ref0, subs0) in seen:
+            if shape0 != [h, w] and ref0 != ref_idx:
+                visible = True
+                ctx.label("rewrap:same-sub-other-shape" if subs0 == subs else "rewrap:other-sub-other-shape")
+            elif shape0 == [h, w]:
+                ctx.label("rewrap:same-shape-again")
+        seen.append(([h, w], ref_idx, subs))
+        if not border:
+            continue
+        # border pixels of this mask (C10's quantity, re-read here because it sits on the path of every relocation)
+        ctx.equal(np.asarray(mask.derive_indexes.border_slim).astype(int), np.asarray(border, dtype=int),
+                  "rewrap/border-pixels", "step %d shape %s: derive_indexes.border_slim vs set definition" % (k, [h, w]))
+        br = aa.BorderRelocator(mask=mask, sub_size=sub_arg)
+        gi = check_sub_border(ctx, m, subs, br.sub_border_slim, geom)
+        gd = check_sub_border(ctx, m, subs, brmod.sub_border_pixel_slim_indexes_from(
+            mask_2d=m.copy(), sub_size=np.asarray(subs, dtype=int)), geom)
+        if gi is None or gd is None:
+            from vp.engine import KnownSkip
+            raise KnownSkip("sub-border")
+        scale = max(1.0, float(np.abs(geom[0]).max()))
+        ctx.close(np.asarray(br.sub_grid, dtype=float).reshape(-1, 2), geom[0], "sub-border/sub-grid-view", atol=1e-9 * scale,
+                  what="step %d: BorderRelocator.sub_grid vs closed-form sub-pixel centres" % k)
+        ctx.close(np.asarray(br.sub_border_grid, dtype=float).reshape(-1, 2), geom[0][gi], "sub-border/grid-view",
+                  atol=1e-9 * scale, what="step %d: sub_border_grid vs closed-form centres of the selected sub-pixels" % k)
+        # a relocation through this relocator, against its own oracle
+        c0 = geom[0].mean(axis=0)
+        src = c0 + (geom[0] - c0) * np.asarray(st_["stretch"], dtype=float)
+        for idx, f in st_["push"]:
+            i = idx % len(src)
+            src[i] = c0 + f * (src[i] - c0)
+        got = br.relocated_grid_from(grid=aa.Grid2DIrregular(values=src.copy()))
+        check_relocation(ctx, "rewrap/grid", np.asarray(got), src, src[gi], border_rows=[int(b) for b in gi], label=(k == 0))
+    ctx.nt(visible)
+
+
 SUBCHECKS = [
     SubCheck("kernel", body_kernel, strategy=kernel_case(), examples={"quick": 1500, "thorough": 24000},
              shards={"quick": 4, "thorough": 8}),
@@ -804,4 +932,6 @@ SUBCHECKS = [
              shards={"quick": 3, "thorough": 3}),
     SubCheck("subborder", body_subborder, strategy=subborder_case(), examples={"quick": 1000, "thorough": 12000},
              shards={"quick": 4, "thorough": 3}),
+    SubCheck("rewrap", body_rewrap, strategy=rewrap_case(), examples={"quick": 400, "thorough": 6000},
+             shards={"quick": 2, "thorough": 4}),
 ]
